@@ -34,6 +34,8 @@ TRUSTED = ["harness/vloop.py"]
 
 BODY0 = b"hello world!"  # first byte 0x68: low nibble 8, like a zlib (RFC 1950) header
 CHUNKINGS = {"11+1": [11, 1], "5+7": [5, 7], "12": [12], "1x3+9": [1, 1, 1, 9]}
+DEEP_CHUNKINGS = {"2+2+8": [2, 2, 8], "4x3": [4, 4, 4], "1+11": [1, 11]}
+CHUNKINGS_ALL = dict(CHUNKINGS, **DEEP_CHUNKINGS)
 
 
 class _Stub:
@@ -78,7 +80,8 @@ class _Stub:
         return b""
 
 
-def body_flow(ctx, framing="chunked", compressed=False, corrupt=False, chunkings=None, encoding="gzip", light=False):
+def body_flow(ctx, framing="chunked", compressed=False, corrupt=False, chunkings=None, encoding="gzip", light=False,
+              deep=False):
     import logging
 
     import aiohttp
@@ -88,8 +91,8 @@ def body_flow(ctx, framing="chunked", compressed=False, corrupt=False, chunkings
 
     logging.disable(logging.CRITICAL)
     loop = install(VLoop())
-    limit = ctx.pick("read_bufsize", [4] if light else [2, 4])
-    ratio = ctx.pick("ratio", [3] if light else [1, 3]) if compressed else 1
+    limit = ctx.pick("read_bufsize", [4] if light else ([1, 2, 4] if deep else [2, 4]))
+    ratio = ctx.pick("ratio", [3] if light else ([1, 3, 10] if deep else [1, 3])) if compressed else 1
     _Stub.ratio = ratio
     _Stub.calls = []
     _Stub.fail_at = 5 if corrupt else None
@@ -102,7 +105,7 @@ def body_flow(ctx, framing="chunked", compressed=False, corrupt=False, chunkings
     if framing == "chunked":
         wire = b""
         pos = 0
-        for n in CHUNKINGS[chunking]:
+        for n in CHUNKINGS_ALL[chunking]:
             wire += b"%x\r\n" % n + BODY[pos:pos + n] + b"\r\n"
             pos += n
         wire += b"0\r\n\r\n"
@@ -218,7 +221,8 @@ def body_flow(ctx, framing="chunked", compressed=False, corrupt=False, chunkings
         r = check(n)
         if r:
             return r
-        op = ctx.pick(f"consumer{step}", ["none", "readany"] if light else ["none", "read1", "readany"])
+        op = ctx.pick(f"consumer{step}", ["none", "readany"] if light else
+                      (["none", "read1", "read3", "readany"] if deep else ["none", "read1", "readany"]))
         if op != "none" and (pending_read["t"] is None or pending_read["t"].done()) and state["err"] is None:
             trace.append([op])
             pending_read["t"] = asyncio.Task(consume(op), loop=loop)
@@ -328,15 +332,17 @@ def jobs(tier):
     lim = {"time_limit": 110 if quick else 1200}
     out = []
     for framing in ("chunked", "length"):
-        for ck in (sorted(CHUNKINGS) if framing == "chunked" else [None]):
+        for ck in (sorted(CHUNKINGS if quick else CHUNKINGS_ALL) if framing == "chunked" else [None]):
             cks = [ck] if ck else None
             for compressed in (False, True):
                 out.append(dict(name=f"flow-{framing}-{ck}-{'gz' if compressed else 'id'}", func="body_flow",
-                                params=dict(framing=framing, compressed=compressed, chunkings=cks), limits=lim))
+                                params=dict(framing=framing, compressed=compressed, chunkings=cks, deep=not quick),
+                                limits=lim))
             out.append(dict(name=f"flow-{framing}-{ck}-corrupt", func="body_flow",
-                            params=dict(framing=framing, compressed=True, corrupt=True, chunkings=cks), limits=lim))
+                            params=dict(framing=framing, compressed=True, corrupt=True, chunkings=cks, deep=not quick),
+                            limits=lim))
     for enc in ("deflate-raw", "deflate-zlib"):
-        for ck in (("1x3+9", "5+7") if quick else sorted(CHUNKINGS)):
+        for ck in (("1x3+9", "5+7") if quick else sorted(CHUNKINGS_ALL)):
             out.append(dict(name=f"flow-chunked-{ck}-{enc}", func="body_flow",
                             params=dict(framing="chunked", compressed=True, chunkings=[ck], encoding=enc, light=quick),
                             limits=lim))
@@ -354,6 +360,10 @@ REQUIRED_OUTCOMES = ("chunked:id:ok", "chunked:gz:ok", "length:gz:corrupt", "chu
 
 
 def bounds(tier):
-    return {"body": "12 bytes; chunkings " + str(sorted(CHUNKINGS)) + " or Content-Length", "segments": "2 symbolic cuts of the body wire image at every structural boundary (chunk-size line end, chunk data end, CRLF) and its neighbours",
-            "consumer": "none/read(1)/readany after each of 3 delivery steps, then read() to the end",
-            "limits": "read_bufsize in {2,4}; stub expansion ratio in {1,3}; client_max_size in {4,8,12} vs body 3..20 in segments of 1/3/5"}
+    q = tier == "quick"
+    return {"body": "12 bytes; chunkings " + str(sorted(CHUNKINGS if q else CHUNKINGS_ALL)) + " or Content-Length",
+            "encodings": "identity; 'gzip' and 'deflate' (raw and zlib-wrapped first byte) through the contract stub",
+            "segments": "2 symbolic cuts of the body wire image at every structural boundary (chunk-size line end, chunk data end, CRLF) and its neighbours",
+            "consumer": ("none/read(1)/readany" if q else "none/read(1)/read(3)/readany") + " after each of 3 delivery steps, then read() to the end",
+            "limits": ("read_bufsize in {2,4}; stub expansion ratio in {1,3}" if q else "read_bufsize in {1,2,4}; stub expansion ratio in {1,3,10}") +
+                      "; client_max_size in {4,8,12} vs body 3..20 in segments of 1/3/5"}
